@@ -38,7 +38,73 @@ normalize_slice = Contract(
     note="math.isnan(dim) is False for integer dimensions (unknown chunk sizes are outside the contract); non-slice indices are returned unchanged (not in the contract)",
 )
 
-CONTRACTS = [normalize_slice]
+# ------------------------------------------------------------------------------------------------------------
+# _slice_1d, positive step: which local slice each chunk gets.  Fragment (extracted mechanically): from
+# `step = index.step or 1` to the end of the `if step > 0:` block's loop, then `return d`.  Dropped: the integer-index
+# and full-slice fast paths before it, the negative-step block, and the two cosmetic statements after it (rewriting
+# slice(0, length, 1) as slice(None, None, None), and the `x[:0]` special case) -- bounded natively.
+import ast as _ast
+
+
+def slice1d_positive(body):
+    start = next(i for i, s_ in enumerate(body) if _ast.unparse(s_) == "step = index.step or 1")
+    end = next(i for i, s_ in enumerate(body) if isinstance(s_, _ast.If) and _ast.unparse(s_.test) == "step > 0" and any(isinstance(x, _ast.For) for x in s_.body))
+    frag = list(body[start:end + 1])
+    r = _ast.Return(value=_ast.Name(id="d", ctx=_ast.Load()))
+    _ast.copy_location(r, body[end])
+    return frag + [_ast.fix_missing_locations(r)]
+
+
+SI = T.Seq(T.Int)
+_B = lambda j: f"(chunk_boundaries[({j}) - 1] if ({j}) > 0 else 0)"
+# the entry of chunk j is exactly what the statement demands:  local start = first selected position at or after the chunk
+# start, congruent to START modulo step (FIRST[j] == START + step * M[j]), local stop = where the chunk or the slice ends
+_ENTRY = (f"d[j].start is not None and d[j].stop is not None and d[j].step is not None and d[j].step == step and d[j].start == FIRST[j] - {_B('j')}"
+          f" and d[j].stop == (STOP - {_B('j')} if STOP - {_B('j')} < lengths[j] else lengths[j])")
+_VISITED = ("forall(lambda j: implies(istart <= j and j < {hi}, "
+            f"implies(STOP > {_B('j')}, FIRST[j] == START + step * M[j] and M[j] >= 0 and FIRST[j] >= {_B('j')} and (FIRST[j] - {_B('j')} < step or M[j] == 0))"
+            f" and (j in d.keys()) == (STOP > {_B('j')} and FIRST[j] < {_B('j')} + lengths[j])"
+            f" and implies(j in d.keys(), {_ENTRY})), Int)")
+
+slice_1d_pos = Contract(
+    MODULE, "_slice_1d[positive step]", source="_slice_1d",
+    fragment=slice1d_positive,
+    params={"dim_shape": T.Int, "lengths": SI, "index": T.Slice, "chunk_boundaries": SI},
+    locals={"step": T.Int, "start": T.Int, "stop": T.Int, "d": T.Map(T.Int, T.Slice), "istart": T.Int, "istop": T.Int, "length": T.Int,
+            "START": T.Int, "STOP": T.Int, "MM": T.Int, "S_": T.Int, "TOOK": T.Bool, "FIRST": T.Map(T.Int, T.Int), "M": T.Map(T.Int, T.Int)},
+    returns=T.Map(T.Int, T.Slice),
+    requires=[
+        ("chunks", "len(lengths) >= 1 and all(lengths[q] >= 0 for q in range(len(lengths)))"),
+        ("boundaries are the running sums of the chunk lengths (cached_cumsum: ASSUMED)",
+         "len(chunk_boundaries) == len(lengths) and chunk_boundaries[0] == lengths[0] and all(chunk_boundaries[q] == chunk_boundaries[q - 1] + lengths[q] for q in range(1, len(lengths)))"
+         " and forall(lambda a, b: implies(0 <= a and a <= b and b < len(lengths), chunk_boundaries[a] <= chunk_boundaries[b])) and chunk_boundaries[len(lengths) - 1] == dim_shape"),
+        ("positive-step", "index.step is None or index.step >= 1"),
+        ("normalised-bounds", "(index.start is None or (0 - dim_shape <= index.start and index.start <= dim_shape)) and (index.stop is None or (0 - dim_shape <= index.stop and index.stop <= dim_shape))"),
+    ],
+    ensures=[
+        ("C20-only-chunks-that-hold-a-selected-position-get-an-entry, with exactly the local slice", _VISITED.format(hi="istop").replace("d[j]", "result[j]").replace("d.keys()", "result.keys()")),
+        ("C20-no-entry-outside-the-visited-range", "forall(lambda j: implies(j in result.keys(), istart <= j and j < istop), Int)"),
+        ("C20-chunks-before-the-range-end-before-START", "forall(lambda j: implies(0 <= j and j < istart, chunk_boundaries[j] <= START), Int)"),
+        ("C20-chunks-after-the-range-begin-at-or-after-STOP", f"forall(lambda j: implies(istop <= j and j < len(lengths), {_B('j')} >= STOP), Int)"),
+        ("range", "0 <= istart and istop <= len(lengths) and 0 <= START and START <= dim_shape and 0 <= STOP and STOP <= dim_shape"),
+    ],
+    loops={0: dict(index="i0", invariant=[
+        ("stop-is-relative", f"stop == STOP - {_B('i0')}"),
+        ("start-is-the-next-selected-position", f"implies(stop > 0, start >= 0 and {_B('i0')} + start == START + step * MM and MM >= 0 and (start < step or MM == 0))"),
+        ("visited", _VISITED.format(hi="i0")),
+        ("no-entry-outside", "forall(lambda j: implies(j in d.keys(), istart <= j and j < i0), Int)"),
+        ("facts", "step >= 1 and 0 <= istart and istart <= i0 and istop <= len(lengths) and 0 <= START and START <= dim_shape and 0 <= STOP and STOP <= dim_shape"),
+    ])},
+    ghost=[
+        ("before", "d = dict()", "START = start\nSTOP = stop\nMM = 0\nFIRST = {}\nM = {}"),
+        ("after", "length = lengths[i]", "S_ = start\nTOOK = start < length and stop > 0\nFIRST[i] = " + _B("i") + " + start\nM[i] = MM"),
+        ("before", "stop -=", "if TOOK:\n    lemma_divmod_any(S_ - length, step)\n    MM = MM - (S_ - length) // step"),
+    ],
+    note="per-chunk characterisation; that it amounts to `the union of the local selections is the global selection` is the paper argument: "
+         "FIRST[j] is the least position START + k*step at or after the chunk start, so the chunk holds a selected position iff FIRST[j] lies in it and before STOP",
+)
+
+CONTRACTS = [normalize_slice, slice_1d_pos]
 
 
 def setup(eng):
@@ -47,3 +113,5 @@ def setup(eng):
     eng.funcs["math.isnan"] = FuncVal("math.isnan", "model", lambda e, st, node, want: SV(z3.BoolVal(False), T.Bool))
     eng.isinstance_static[("slice", "slice")] = True
     eng.uninterp_divmod = True
+    from contracts.lemmas import LEMMA_FUNCS
+    eng.funcs.update(LEMMA_FUNCS)
